@@ -16,6 +16,7 @@ import (
 	"github.com/milvus-io/milvus/pkg/util/funcutil"
 
 	"github.com/zilliztech/milvus-cdc/core/log"
+	cdcreader "github.com/zilliztech/milvus-cdc/core/reader"
 	"github.com/zilliztech/milvus-cdc/core/verifkit/ev"
 	"github.com/zilliztech/milvus-cdc/core/verifkit/fakemq"
 	"github.com/zilliztech/milvus-cdc/core/verifkit/sched"
@@ -885,6 +886,7 @@ func fsExplore(t *testing.T, res *ev.Result, prop string, bound int, scs []*fsSc
 	log.Info("warm up the logger outside the bubble")
 	schedQuiet()
 	sched.StartWatchdog(120 * time.Second)
+	cdcreader.VerifReleaseOutsidePools()
 	e := sched.NewExplorer(t, bound)
 	e.Horizon = 20 * time.Second
 	e.IdleResets = true
